@@ -88,6 +88,13 @@ ROLE_MODULES = ("_storage",)  # functions there carry roles (push/pop/get/set, f
 def _inlinable(model, h: FuncInfo, caller: Optional[FuncInfo] = None) -> bool:
     if h.module.short in ROLE_MODULES:
         return False
+    if isinstance(h.parent, FuncInfo):
+        # a local function defined more than once under one name (`if c: def f.. else: def f..`) or re-bound:
+        # which body a call runs depends on the path
+        same = [x for x in ast.walk(h.parent.node) if isinstance(x, (ast.FunctionDef, ast.AsyncFunctionDef)) and x.name == h.name and x is not h.parent.node]
+        rebound = [x for x in ast.walk(h.parent.node) if isinstance(x, ast.Name) and x.id == h.name and isinstance(x.ctx, (ast.Store, ast.Del))]
+        if len(same) != 1 or rebound:
+            return False
     if h.cls is not None and (not h.name.startswith("_") or h.name.startswith("__")):
         return False  # public / dunder methods may override or implement a protocol of a base class: dispatch, not a helper
     n = h.node
@@ -1558,6 +1565,13 @@ def scalarise_local_dicts(model) -> list:
 
 
 # --------------------------------------------------------------------------- conditional expressions
+def _as_store(t):
+    for x in ast.walk(t):
+        if isinstance(x, (ast.Name, ast.Tuple, ast.List, ast.Starred)):
+            x.ctx = ast.Store()
+    return t
+
+
 class _DesugarIfExp(ast.NodeTransformer):
     """`x = a if t else b` -> `if t: x = a` / `else: x = b`; `return a if t else b` likewise (chains
     recursively).  The pinned tree has no conditional expression; the rules speak if/else."""
@@ -2066,3 +2080,60 @@ def dissolve_new_cm_classes(model, module_names: dict) -> list:
                 if mod is not None:
                     mod.tree.body = [st for st in mod.tree.body if not (isinstance(st, ast.ClassDef) and st.name == cname)]
     return done
+
+
+class _ReturnAllAny(ast.NodeTransformer):
+    """`return all(e for t in xs)` -> `for t in xs: if not e: return False` / `return True` (and the `any` dual):
+    the loop the generator stands for (nothing runs after a return, so the loop variables leaking into the function
+    scope cannot be observed).  Run *after* helper inlining: a new helper that is `return all(..)` is better
+    inlined as the expression it is."""
+
+    def __init__(self):
+        self.changed = False
+
+    def visit_Lambda(self, n):
+        return n
+
+    def visit_Return(self, n):
+        v = n.value
+        # `return all(e for t in xs)` -> `for t in xs: if not e: return False` / `return True` (and the `any` dual):
+        # the loop the generator stands for (nothing runs after a return, so the loop variables leaking into the
+        # function scope cannot be observed)
+        if isinstance(v, ast.Call) and isinstance(v.func, ast.Name) and v.func.id in ("all", "any") and len(v.args) == 1 and not v.keywords \
+                and isinstance(v.args[0], ast.GeneratorExp) and len(v.args[0].generators) == 1 and not v.args[0].generators[0].is_async \
+                and not any(isinstance(x, (ast.NamedExpr, ast.Lambda, ast.Yield, ast.Await)) for x in ast.walk(v.args[0])):
+            ge = v.args[0]
+            g = ge.generators[0]
+            is_all = v.func.id == "all"
+            test = ge.elt
+            for c_ in reversed(g.ifs):  # `all(e for t in xs if c)`: elements failing c are skipped
+                test = ast.BoolOp(op=ast.Or(), values=[ast.UnaryOp(op=ast.Not(), operand=c_), test]) if is_all else ast.BoolOp(op=ast.And(), values=[c_, test])
+            cond = ast.UnaryOp(op=ast.Not(), operand=test) if is_all else test
+            body = [ast.If(test=cond, body=[ast.Return(value=ast.Constant(value=not is_all))], orelse=[])]
+            loop = ast.copy_location(ast.For(target=_as_store(copy.deepcopy(g.target)), iter=g.iter, body=body, orelse=[]), n)
+            tail = ast.copy_location(ast.Return(value=ast.Constant(value=is_all)), n)
+            ast.fix_missing_locations(loop)
+            self.changed = True
+            return [loop, tail]
+        return n
+
+
+def desugar_return_all_any(model) -> bool:
+    changed = False
+    for mod in model.modules.values():
+        if mod.short.startswith("_typeguard"):
+            continue
+        if not any(isinstance(x, ast.Return) and isinstance(x.value, ast.Call) and isinstance(x.value.func, ast.Name) and x.value.func.id in ("all", "any") for x in ast.walk(mod.tree)):
+            continue
+        tr = _ReturnAllAny()
+        for n in ast.walk(mod.tree):
+            if isinstance(n, (ast.FunctionDef, ast.AsyncFunctionDef)):
+                new = []
+                for st in n.body:
+                    r = tr.visit(st)
+                    new += r if isinstance(r, list) else [r]
+                n.body = new
+        if tr.changed:
+            ast.fix_missing_locations(mod.tree)
+            changed = True
+    return changed
